@@ -300,7 +300,16 @@ func (d *lmtpDelivery) BodyNonAtomic(ctx context.Context, sc module.StatusCollec
 	defer r.Close()
 
 	rcptIndx := 0
-	err = d.conn.LMTPData(ctx, header, r, func(rcpt string, err *smtp.SMTPError) {
+	err = d.conn.LMTPData(ctx, header, r, func(_ string, err *smtp.SMTPError) {
+		// Statuses arrive in the order of accepted RCPT commands. Report them
+		// using the address passed to AddRcpt, not the (possibly converted to
+		// the ASCII form) address that was sent to the server.
+		if rcptIndx >= len(d.rcpts) {
+			return
+		}
+		rcpt := d.rcpts[rcptIndx]
+		rcptIndx++
+
 		if err == nil {
 			sc.SetStatus(rcpt, nil)
 		} else {
@@ -312,7 +321,6 @@ func (d *lmtpDelivery) BodyNonAtomic(ctx context.Context, sc module.StatusCollec
 				Err:          err,
 			})
 		}
-		rcptIndx++
 	})
 	if err != nil {
 		modErr := d.u.moduleError(err)
